@@ -65,7 +65,7 @@ def main(tier):
                 ck.violation(f"AWQ {key.split('/')[0]} on a 4-bit matrix held as {key.split('/')[1]}: {verdict} ({c['N']}x{c['K']})", ctx | {"t": t, "verdict": r["pure"]})
         for key, verdict in r.get("transposed_view", {}).items():
             if verdict != "ok":
-                ck.violation(f"AWQPackedTensor.pack ({key}) of a non-contiguous (transposed view) 4-bit matrix: {verdict} ({c['N']}x{c['K']})", ctx | {"t": t})
+                ck.violation(f"AWQPackedTensor pack / unpack / detach history ({key}) on a 4-bit matrix given as a transposed view: {verdict} ({c['N']}x{c['K']})", ctx | {"t": t})
         v2 = "p2" in r
         if v2:
             if r["u2"]["data"] != t["data"] or r["u2"]["shape"] != t["shape"]:
